@@ -141,6 +141,13 @@ def catalogue(tier, rng):
             for how in ("fin", "rst"):
                 st = "accepted" if name in ("connect", "connect_v2") else STAGES[1 + (off + len(name)) % 4]
                 add("cut_at_offset", st, [(data[:off], 1 if off == len(data) else 0)], close=how, note=f"{name} cut after {off}/{len(data)} bytes, {how}")
+    # (v') a subscriber that died silently (reset) is first discovered by a *periodic* manager message
+    for st in ("subscribed", "suball", "logger"):
+        for adv in (0.95, 1.1, 5.5):
+            for how in ("rst", "fin"):
+                add("dead_at_timer", st, [], close=how, note=f"{how}, then only the timer fires (adv {adv})", timer_adv=adv)
+                add("dead_at_timer", st, [], close=how, note=f"{how}, then only the timer fires (adv {adv}); TIMING_MESSAGE disabled (-T)",
+                    timer_adv=adv, notiming=True)
     return out
 
 
@@ -242,7 +249,8 @@ def run_case(case, tier):
     if case["mode"] == "flood":
         return run_flood(case)
     tc = bool(case.get("tc"))
-    rig = ManagerRig(stepped=True, timecode=tc, loud=bool(case.get("loud")))
+    rig = ManagerRig(stepped=True, timecode=tc, loud=bool(case.get("loud")),
+                     send_msg_timing=not case.get("fault", {}).get("notiming", False))
     try:
         sc = Scenario(rig, 0)
         sc.max_drain = 64
@@ -252,8 +260,16 @@ def run_case(case, tier):
             steps += stage_steps("O", f["stage"], 30)
             for hx, n in f["raws"]:
                 steps.append(["raw", "O", tcfix(hx, tc), n, f["note"]])
+            if f.get("timer_adv") and f["stage"] == "subscribed":
+                steps += [["sub", "O", W.MT_CLIENT_INFO], ["sub", "O", W.MT_TIMING], ["sub", "O", W.MT_MESSAGE_TRAFFIC], ["drain"]]
+            if f.get("timer_adv"):
+                steps.append(["round", {"only": [], "adv": 1.5}])  # flush the statistics gathered so far
             if f["close"]:
                 steps += [["close", "O", f["close"]], ["await_closed", "O"]]
+            if f.get("timer_adv"):
+                # one harmless control frame makes the round non-idle; the dead subscriber is then first touched by
+                # whichever periodic message is due
+                steps += [["sub", "BP", 556], ["round", {"only": ["BP"], "adv": f["timer_adv"]}], ["round", {"only": [], "adv": 0.001}]]
             steps += [["pub", "BP", T, 0, 0, 8], ["drain", {"adv": 0.001}]]
         else:
             labels = ["BP"]
